@@ -6,13 +6,14 @@
 //! a foreign pointer (harness-owned zeroed heap block)}; stream arguments from {fresh valid stream, live handle of another
 //! type, released stream, NULL, foreign}. Pool <= 3 live handles.
 //!
-//! Exploration: (1) every sequence up to depth D1 without any reduction; (2) breadth-first to depth D2 with one representative
+//! Exploration: (1) every sequence over a 22-function core alphabet to depth 2 (quick) / 3 (thorough) without any reduction,
+//! thorough also every sequence over the full alphabet to depth 2; (2) breadth-first to depth 3 / 5 with one representative
 //! history per abstract model state (multiset of (kind, flavour, status) + kind of the last freed address), every enabled call
-//! tried in every state. Every sequence ends with an epilogue that frees every handle the model believes live (must succeed
-//! exactly once, a second free must fail).
+//! tried in every state; (3) thorough: the BFS sequences of length <= 3 again under valgrind memcheck. Every sequence ends with
+//! an epilogue that frees every handle the model believes live (must succeed exactly once, a second free must fail).
 //!
 //! All library calls happen in forked children of WORKER SUBPROCESSES (this binary re-executed with VERIF_C31_WORKER set), so a
-//! crash kills one child and is attributed to the exact sequence.
+//! crash kills one child, is attributed to the exact sequence, and the worker restarts a child after the crashing call.
 //!
 //! Oracle (property text): argument invalid per model => error indicator (NULL / negative / false) and a fresh, non-empty
 //! c2pa_error(); all arguments valid => no handle-related error (NullParameter / UntrackedPointer / WrongPointerType);
@@ -20,7 +21,9 @@
 //!
 //! Mutants caught (tools/mutant_run.sh F <diff> C31 quick):
 //!  * /verif/mutants/C31-build-no-untrack.diff   (c2pa_context_builder_build consumes the builder without untracking it)
+//!      -> `crash fn=c2pa_free args=[any:freed] how=SIGSEGV` (double free of the consumed builder), same for every typed free
 //!  * /verif/mutants/C31-free-ignores-untracked.diff (cimpl_free reports success for untracked pointers)
+//!      -> `double-free-accepted kind=*`, `no-error-indicator fn=c2pa_free arg0=any:freed|foreign`, `no-error-message fn=c2pa_*_free ...`
 
 #![allow(deprecated)]
 #![allow(clippy::missing_safety_doc)]
@@ -205,6 +208,35 @@ functions! {
 }
 
 impl F {
+    /// the reduced alphabet used for the deepest unreduced enumeration
+    fn is_core(self) -> bool {
+        matches!(
+            self,
+            F::Version
+                | F::SettingsNew
+                | F::CtxBuilderNew
+                | F::ContextNew
+                | F::ReaderNew
+                | F::BuilderFromJson
+                | F::SignerFromInfo
+                | F::CtxSetSettings
+                | F::CtxSetSigner
+                | F::CtxBuild
+                | F::ReaderFromContext
+                | F::BuilderFromContext
+                | F::ReaderWithStream
+                | F::ReaderJson
+                | F::ReaderResourceToStream
+                | F::BuilderWithDefinition
+                | F::BuilderAddResource
+                | F::BuilderSign
+                | F::SignerReserveSize
+                | F::IdentitySignerCreate
+                | F::Free
+                | F::ReaderFree
+                | F::ReleaseStream
+        )
+    }
     fn is_free(self) -> bool {
         matches!(self.params(), [P::Any])
     }
@@ -656,7 +688,8 @@ struct Verdicts {
 
 fn handle_error_class(msg: &str) -> Option<&'static str> {
     for c in ["NullParameter", "UntrackedPointer", "WrongPointerType"] {
-        if msg.starts_with(c) {
+        // registry errors reach c2pa_error() wrapped as "Other: UntrackedPointer: 0x..."
+        if msg.starts_with(c) || msg.starts_with(&format!("Other: {c}")) {
             return Some(c);
         }
     }
@@ -693,6 +726,17 @@ unsafe fn exec(env: &Env, m: &mut Model, op: &Op, judge: bool) -> Verdicts {
     let f = op.f;
     let params = f.params();
     let mut verdicts = Verdicts::default();
+    // Which ops are enabled was decided on one rebuild of the prefix; on this rebuild the allocator may have re-issued the freed
+    // address to a new handle (then there is no "freed address" to pass), or the pool may be shorter. Such a call is not applicable.
+    let inapplicable = op.args.iter().any(|a| match a {
+        A::Freed => m.freed.is_none(),
+        A::Slot(i) => (*i as usize) >= m.live.len(),
+        _ => false,
+    });
+    if inapplicable {
+        verdicts.class = format!("{} not-applicable (freed address re-issued on this rebuild)", f.name());
+        return verdicts;
+    }
     // resolve arguments
     let mut ambient: Vec<AmbStream> = vec![];
     let mut dead_ctx: Vec<*mut Cursor<Vec<u8>>> = vec![];
@@ -756,7 +800,7 @@ unsafe fn exec(env: &Env, m: &mut Model, op: &Op, judge: bool) -> Verdicts {
         "{} {} -> {}",
         f.name(),
         if unknown { "unknown-status-arg".to_string() } else if let Some((i, c)) = invalid { argdesc(i, c) } else { "valid".to_string() },
-        if is_err { format!("error[{}]", msg.split(':').next().unwrap_or("")) } else { "ok".to_string() }
+        if is_err { format!("error[{}]", handle_error_class(&msg).unwrap_or_else(|| msg.split(':').next().unwrap_or(""))) } else { "ok".to_string() }
     );
 
     if judge && !unknown {
@@ -786,7 +830,7 @@ unsafe fn exec(env: &Env, m: &mut Model, op: &Op, judge: bool) -> Verdicts {
     }
 
     // ---- model update ----
-    let untracked = fresh && msg.starts_with("UntrackedPointer");
+    let untracked = fresh && handle_error_class(&msg) == Some("UntrackedPointer");
     let mut to_kill: Vec<usize> = vec![];
     let mut to_unknown: Vec<usize> = vec![];
     let mut to_live: Vec<usize> = vec![];
@@ -794,12 +838,22 @@ unsafe fn exec(env: &Env, m: &mut Model, op: &Op, judge: bool) -> Verdicts {
         let slot = if let A::Slot(i) = a { Some(*i as usize).filter(|i| *i < m.live.len()) } else { None };
         let v = validity[j];
         if let (Some(s), Validity::Unknown) = (slot, v) {
-            // first observation after an unspecified outcome
-            if untracked {
+            // An unspecified status is only decided by a call whose outcome depends on that argument: the registry says
+            // "untracked" (consumed), or the call succeeds with it as an argument of the right type (still live).
+            let right_type = match p {
+                P::Any => true,
+                P::H(k, _) => m.live[s].kind == *k,
+                P::S(_) => false,
+            };
+            if untracked && invalid.is_none() {
                 to_kill.push(s);
                 continue;
             }
-            to_live.push(s);
+            if right_type && !is_err && invalid.is_none() {
+                to_live.push(s);
+            } else {
+                continue;
+            }
         }
         let usable = matches!(v, Validity::Valid | Validity::Unknown);
         let Some(s) = slot else { continue };
@@ -914,10 +968,12 @@ struct Unit {
     want_succ: bool,
     dedup: bool,
     verbose: bool,
+    /// only calls of the core alphabet are tried
+    core: bool,
 }
 impl Unit {
     fn to_json(&self) -> Value {
-        json!({"prefix": hist_json(&self.prefix), "only": self.only.as_ref().map(|o| o.to_json()), "want_succ": self.want_succ, "dedup": self.dedup, "verbose": self.verbose})
+        json!({"prefix": hist_json(&self.prefix), "only": self.only.as_ref().map(|o| o.to_json()), "want_succ": self.want_succ, "dedup": self.dedup, "verbose": self.verbose, "core": self.core})
     }
     fn from_json(v: &Value) -> Unit {
         Unit {
@@ -926,26 +982,28 @@ impl Unit {
             want_succ: v["want_succ"].as_bool().unwrap_or(false),
             dedup: v["dedup"].as_bool().unwrap_or(false),
             verbose: v["verbose"].as_bool().unwrap_or(false),
+            core: v["core"].as_bool().unwrap_or(false),
         }
     }
 }
 
 static PIPE_FD: std::sync::atomic::AtomicI32 = std::sync::atomic::AtomicI32::new(-1);
 
+/// One line = one write(2) of less than PIPE_BUF bytes, so lines of concurrent writers never interleave.
 fn child_write(s: &str) {
     let fd = PIPE_FD.load(std::sync::atomic::Ordering::Relaxed);
     if fd >= 0 {
-        let b = s.as_bytes();
-        let mut off = 0;
-        while off < b.len() {
-            let n = unsafe { libc::write(fd, b[off..].as_ptr() as *const c_void, b.len() - off) };
-            if n <= 0 {
-                break;
-            }
-            off += n as usize;
+        let mut b = s.as_bytes().to_vec();
+        if b.len() > 4000 {
+            b.truncate(3999);
+            b.push(b'\n');
         }
+        unsafe { libc::write(fd, b.as_ptr() as *const c_void, b.len()) };
     }
 }
+
+/// index of the call being executed (for panic reports)
+static CUR_IDX: std::sync::atomic::AtomicI64 = std::sync::atomic::AtomicI64::new(-1);
 
 fn sig_name(status: i32) -> String {
     if libc::WIFSIGNALED(status) {
@@ -964,9 +1022,10 @@ fn sig_name(status: i32) -> String {
     }
 }
 
-/// Body of a forked child: never returns. The child replays the prefix ONCE and then forks a grandchild per call to try
-/// (fork is the state copy that the library itself cannot provide), so a crash kills only that grandchild.
-unsafe fn child_main(env: &Env, unit: &Unit, wfd: i32) -> ! {
+/// Body of a forked child: never returns. Runs prefix·op for every enabled op with index >= start, rebuilding the prefix state
+/// by replay each time (fork-per-call was tried as a state copy; on this virtualised box process creation costs far more
+/// than replaying a few constructors). A crash kills this child; the worker restarts a new one after the crashing index.
+unsafe fn child_main(env: &Env, unit: &Unit, start: usize, wfd: i32) -> ! {
     PIPE_FD.store(wfd, std::sync::atomic::Ordering::Relaxed);
     // a panic raised by harness code exits 101; a panic inside the library (extern "C" cannot unwind) is reported and aborts
     std::panic::set_hook(Box::new(|info| {
@@ -979,65 +1038,71 @@ unsafe fn child_main(env: &Env, unit: &Unit, wfd: i32) -> ! {
             "?".into()
         };
         let in_harness = loc.contains("props/src/") || loc.contains("kit/src/");
-        child_write(&format!("X {}\n", json!({"harness": in_harness, "loc": loc, "msg": msg})));
+        let msg: String = msg.chars().take(600).collect();
+        child_write(&format!("X {} {}\n", CUR_IDX.load(std::sync::atomic::Ordering::Relaxed), json!({"harness": in_harness, "loc": loc, "msg": msg})));
         if in_harness {
             libc::_exit(101);
         }
     }));
-    libc::alarm(1800);
-    let mut m = Model::default();
+    libc::alarm(900);
+    let last = unit.prefix.last().cloned().unwrap_or(Op { f: F::Version, args: vec![] });
+    let replay = |m: &mut Model| {
+        for op in &unit.prefix {
+            exec(env, m, op, false);
+        }
+    };
     child_write("R\n");
-    for op in &unit.prefix {
-        exec(env, &mut m, op, false);
-    }
     let ops: Vec<Op> = match &unit.only {
         Some(o) => vec![o.clone()],
-        None => m.enabled(),
+        None => {
+            let mut m = Model::default();
+            replay(&mut m);
+            let e: Vec<Op> = m.enabled().into_iter().filter(|o| !unit.core || o.f.is_core()).collect();
+            epilogue(&mut m, &last, false);
+            e
+        }
     };
     child_write(&format!("N {}\n", ops.len()));
-    let threads = std::fs::read_dir("/proc/self/task").map(|d| d.count()).unwrap_or(0);
-    if unit.verbose {
-        child_write(&format!("V model before: {} ; threads in process: {threads}\n", m.key()));
+    for (i, op) in ops.iter().enumerate().skip(start) {
+        CUR_IDX.store(i as i64, std::sync::atomic::Ordering::Relaxed);
+        child_write(&format!("S {i}\n"));
+        let mut m = Model::default();
+        replay(&mut m);
+        if unit.verbose {
+            let threads = std::fs::read_dir("/proc/self/task").map(|d| d.count()).unwrap_or(0);
+            child_write(&format!(
+                "V model before: {} ; threads in process: {threads} ; live {:?} freed {:?}\n",
+                m.key(),
+                m.live.iter().map(|h| format!("{}@{:#x}", h.kind.name(), h.addr)).collect::<Vec<_>>(),
+                m.freed.map(|f| format!("{}@{:#x}", f.1.name(), f.0))
+            ));
+        }
+        child_write(&format!("B {i} {}\n", json!({"op": op.to_json(), "classes": arg_classes(&m, op)})));
+        let t0 = std::time::Instant::now();
+        let vd = exec(env, &mut m, op, true);
+        let ns = t0.elapsed().as_nanos() as u64;
+        let key = m.key();
+        let full = m.live.len() > POOL;
+        let mut v = vd.v;
+        v.extend(epilogue(&mut m, op, true));
+        for x in v.iter_mut() {
+            x.1 = x.1.chars().take(500).collect();
+        }
+        let nontrivial = op.args.iter().any(|a| matches!(a, A::Slot(_) | A::Freed));
+        child_write(&format!("E {i} {}\n", json!({"class": vd.class, "key": key, "viol": v, "overfull": full, "nt": nontrivial, "ns": ns})));
     }
-    for (i, op) in ops.iter().enumerate() {
-        child_write(&format!("B {i} {}\n", op.to_json()));
-        child_write(&format!("P {i} {}\n", arg_classes(&m, op)));
-        let pid = libc::fork();
-        if pid < 0 {
-            child_write("X {\"harness\":true,\"loc\":\"fork\",\"msg\":\"fork failed\"}\n");
-            libc::_exit(101);
-        }
-        if pid == 0 {
-            libc::alarm(120);
-            let t0 = std::time::Instant::now();
-            let vd = exec(env, &mut m, op, true);
-            let ns = t0.elapsed().as_nanos() as u64;
-            let key = m.key();
-            let full = m.live.len() > POOL;
-            let mut v = vd.v;
-            v.extend(epilogue(&mut m, op, true));
-            let nontrivial = op.args.iter().any(|a| matches!(a, A::Slot(_) | A::Freed));
-            child_write(&format!("E {i} {}\n", json!({"class": vd.class, "key": key, "viol": v, "overfull": full, "nt": nontrivial, "ns": ns})));
-            libc::_exit(0);
-        }
-        let mut status = 0i32;
-        libc::waitpid(pid, &mut status, 0);
-        if !(libc::WIFEXITED(status) && libc::WEXITSTATUS(status) == 0) {
-            if libc::WIFEXITED(status) && libc::WEXITSTATUS(status) == 101 {
-                libc::_exit(101);
-            }
-            child_write(&format!("C {i} {}\n", sig_name(status)));
-        }
-    }
-    // the prefix state itself must also be releasable
-    let last = unit.prefix.last().cloned().unwrap_or(Op { f: F::Version, args: vec![] });
-    epilogue(&mut m, &last, false);
     child_write("D\n");
     libc::_exit(0);
 }
 
 #[derive(Default)]
 struct UnitResult {
+    /// memcheck (valgrind) reported an error in a child that ran this unit to completion: (pid log excerpt)
+    memcheck: Vec<String>,
+    /// every op announced (needed to refine a memcheck report to single calls)
+    all_ops: Vec<Value>,
+    /// a few executed calls with their observed class (for the evidence samples)
+    examples: Vec<(Value, String)>,
     times: BTreeMap<String, (u64, u64)>,
     n_ops: usize,
     executed: u64,
@@ -1050,126 +1115,147 @@ struct UnitResult {
     log: Vec<String>,
 }
 
-/// Run one unit in a forked child (which forks once more per call). Runs in the (single-threaded) worker process.
+/// Run one unit in forked children, restarting after every crash. Runs in the (single-threaded) worker process.
 unsafe fn run_unit(env: &Env, unit: &Unit) -> UnitResult {
     let mut res = UnitResult::default();
     let mut seen_keys: BTreeSet<String> = BTreeSet::new();
-    let mut fds = [0i32; 2];
-    if libc::pipe(fds.as_mut_ptr()) != 0 {
-        kit::ev::machinery("C31 worker: pipe failed");
-    }
-    let pid = libc::fork();
-    if pid < 0 {
-        kit::ev::machinery("C31 worker: fork failed");
-    }
-    if pid == 0 {
-        libc::close(fds[0]);
-        child_main(env, unit, fds[1]);
-    }
-    libc::close(fds[1]);
-    let rd = BufReader::new(std::fs::File::from_raw_fd(fds[0]));
-    let mut current: Option<(usize, Value)> = None;
-    let mut done = false;
-    let mut replaying = false;
-    let mut lib_panic: Option<String> = None;
-    let mut crash_desc: Option<String> = None;
-    for line in rd.lines() {
-        let Ok(line) = line else { break };
-        let (tag, rest) = line.split_once(' ').unwrap_or((line.as_str(), ""));
-        match tag {
-            "R" => replaying = true,
-            "N" => {
-                replaying = false;
-                res.n_ops = rest.parse().unwrap_or(0);
-            }
-            "B" => {
-                let (i, op) = rest.split_once(' ').unwrap_or((rest, "null"));
-                current = Some((i.parse().unwrap_or(0), serde_json::from_str(op).unwrap_or(Value::Null)));
-                lib_panic = None;
-                crash_desc = None;
-            }
-            "P" => crash_desc = rest.split_once(' ').map(|x| x.1.to_string()),
-            "V" => res.log.push(rest.to_string()),
-            "X" => {
-                let v: Value = serde_json::from_str(rest).unwrap_or(Value::Null);
-                if v["harness"].as_bool() == Some(true) {
-                    kit::ev::machinery(format!("C31: harness code panicked in a child: {v}"));
+    let mut start = 0usize;
+    loop {
+        let mut fds = [0i32; 2];
+        if libc::pipe(fds.as_mut_ptr()) != 0 {
+            kit::ev::machinery("C31 worker: pipe failed");
+        }
+        let pid = libc::fork();
+        if pid < 0 {
+            kit::ev::machinery("C31 worker: fork failed");
+        }
+        if pid == 0 {
+            libc::close(fds[0]);
+            child_main(env, unit, start, fds[1]);
+        }
+        libc::close(fds[1]);
+        let rd = BufReader::new(std::fs::File::from_raw_fd(fds[0]));
+        // the sequence being executed: (index, announced op + classes once the prefix is rebuilt)
+        let mut started: Option<usize> = None;
+        let mut announced: Option<(Value, String)> = None;
+        let mut panic_msg: Option<String> = None;
+        let mut done = false;
+        for line in rd.lines() {
+            let Ok(line) = line else { break };
+            let (tag, rest) = line.split_once(' ').unwrap_or((line.as_str(), ""));
+            match tag {
+                "N" => res.n_ops = rest.parse().unwrap_or(0),
+                "S" => {
+                    started = rest.parse().ok();
+                    announced = None;
+                    panic_msg = None;
                 }
-                lib_panic = Some(format!("panic at {}: {}", v["loc"].as_str().unwrap_or(""), v["msg"].as_str().unwrap_or("")));
-            }
-            "E" => {
-                let (_, body) = rest.split_once(' ').unwrap_or((rest, "null"));
-                let v: Value = serde_json::from_str(body).unwrap_or(Value::Null);
-                let (_, op) = current.take().unwrap_or((0, Value::Null));
-                res.executed += 1;
-                if v["nt"].as_bool() == Some(true) {
-                    res.nontrivial += 1;
+                "B" => {
+                    let (_, body) = rest.split_once(' ').unwrap_or((rest, "null"));
+                    let v: Value = serde_json::from_str(body).unwrap_or(Value::Null);
+                    announced = Some((v["op"].clone(), v["classes"].as_str().unwrap_or("").to_string()));
+                    res.all_ops.push(v["op"].clone());
                 }
-                if let Some(f) = op["f"].as_str() {
-                    let e = res.times.entry(f.to_string()).or_insert((0, 0));
-                    e.0 += 1;
-                    e.1 += v["ns"].as_u64().unwrap_or(0);
+                "V" => res.log.push(rest.to_string()),
+                "X" => {
+                    let (_, body) = rest.split_once(' ').unwrap_or((rest, "null"));
+                    let v: Value = serde_json::from_str(body).unwrap_or(Value::Null);
+                    if v["harness"].as_bool() == Some(true) {
+                        kit::ev::machinery(format!("C31: harness code panicked in a child: {v}"));
+                    }
+                    panic_msg = Some(format!("panic at {}: {}", v["loc"].as_str().unwrap_or(""), v["msg"].as_str().unwrap_or("")));
                 }
-                *res.outcomes.entry(v["class"].as_str().unwrap_or("?").to_string()).or_insert(0) += 1;
-                for x in v["viol"].as_array().cloned().unwrap_or_default() {
-                    res.violations.push((x[0].as_str().unwrap_or("").to_string(), x[1].as_str().unwrap_or("").to_string(), op.clone()));
-                }
-                if unit.verbose {
-                    res.log.push(format!("{} => {} ; model after: {}", op, v["class"].as_str().unwrap_or(""), v["key"].as_str().unwrap_or("")));
+                "E" => {
+                    let (_, body) = rest.split_once(' ').unwrap_or((rest, "null"));
+                    let v: Value = serde_json::from_str(body).unwrap_or(Value::Null);
+                    let (op, _) = announced.take().unwrap_or((Value::Null, String::new()));
+                    started = None;
+                    res.executed += 1;
+                    if v["nt"].as_bool() == Some(true) {
+                        res.nontrivial += 1;
+                    }
+                    if let Some(f) = op["f"].as_str() {
+                        let e = res.times.entry(f.to_string()).or_insert((0, 0));
+                        e.0 += 1;
+                        e.1 += v["ns"].as_u64().unwrap_or(0);
+                    }
+                    *res.outcomes.entry(v["class"].as_str().unwrap_or("?").to_string()).or_insert(0) += 1;
                     for x in v["viol"].as_array().cloned().unwrap_or_default() {
-                        res.log.push(format!("   VIOLATES [{}]: {}", x[0].as_str().unwrap_or(""), x[1].as_str().unwrap_or("")));
+                        res.violations.push((x[0].as_str().unwrap_or("").to_string(), x[1].as_str().unwrap_or("").to_string(), op.clone()));
+                    }
+                    if v["nt"].as_bool() == Some(true) && res.examples.len() < 2 && (res.executed % 7 == 3 || res.examples.is_empty()) {
+                        res.examples.push((op.clone(), v["class"].as_str().unwrap_or("").to_string()));
+                    }
+                    if unit.verbose {
+                        res.log.push(format!("{} => {} ; model after: {}", op, v["class"].as_str().unwrap_or(""), v["key"].as_str().unwrap_or("")));
+                        for x in v["viol"].as_array().cloned().unwrap_or_default() {
+                            res.log.push(format!("   VIOLATES [{}]: {}", x[0].as_str().unwrap_or(""), x[1].as_str().unwrap_or("")));
+                        }
+                    }
+                    if unit.want_succ && v["overfull"].as_bool() != Some(true) {
+                        let key = v["key"].as_str().unwrap_or("").to_string();
+                        if !unit.dedup || seen_keys.insert(key.clone()) {
+                            res.succ.push((op, key));
+                        }
                     }
                 }
-                if unit.want_succ && v["overfull"].as_bool() != Some(true) {
-                    let key = v["key"].as_str().unwrap_or("").to_string();
-                    if !unit.dedup || seen_keys.insert(key.clone()) {
-                        res.succ.push((op, key));
-                    }
+                "D" => done = true,
+                _ => {}
+            }
+        }
+        let mut status = 0i32;
+        libc::waitpid(pid, &mut status, 0);
+        // under valgrind: an error seen by memcheck in that child turns its exit status into 97 and leaves a log file
+        if let Ok(dir) = std::env::var("VERIF_C31_VGLOG") {
+            let lf = format!("{dir}/vg-{pid}.log");
+            if let Ok(txt) = std::fs::read_to_string(&lf) {
+                let _ = std::fs::remove_file(&lf);
+                if done && libc::WIFEXITED(status) && libc::WEXITSTATUS(status) == 97 {
+                    res.memcheck.push(txt.lines().filter(|l| !l.trim().is_empty()).take(14).collect::<Vec<_>>().join(" | "));
                 }
             }
-            "C" => {
-                // the grandchild executing the current call died
-                let how = rest.split_once(' ').map(|x| x.1).unwrap_or(rest).to_string();
-                let (_, op) = current.take().unwrap_or((0, Value::Null));
+        }
+        if done {
+            break;
+        }
+        if libc::WIFEXITED(status) && libc::WEXITSTATUS(status) == 101 {
+            kit::ev::machinery("C31: harness panic in child (exit 101)");
+        }
+        let how = sig_name(status);
+        let panic_txt = panic_msg.as_ref().map(|p| format!(" — {p}")).unwrap_or_default();
+        match (started, announced) {
+            (Some(i), Some((op, argtxt))) => {
+                // died inside the call under test (or its epilogue)
                 res.executed += 1;
                 let o = Op::from_json(&op);
                 if o.as_ref().map(|o| o.args.iter().any(|a| matches!(a, A::Slot(_) | A::Freed))).unwrap_or(false) {
                     res.nontrivial += 1;
                 }
                 let fname = o.as_ref().map(|o| o.f.name()).unwrap_or("?");
-                let argtxt = crash_desc.clone().unwrap_or_default();
                 *res.outcomes.entry(format!("{fname} [{argtxt}] -> CRASH {how}")).or_insert(0) += 1;
                 res.violations.push((
                     format!("crash fn={fname} args=[{argtxt}] how={how}"),
-                    format!("the process died with {how} in {}{}", o.as_ref().map(|o| o.text()).unwrap_or_default(), lib_panic.as_ref().map(|p| format!(" — {p}")).unwrap_or_default()),
+                    format!("the process died with {how} in {}{panic_txt}", o.as_ref().map(|o| o.text()).unwrap_or_default()),
                     op.clone(),
                 ));
                 if unit.verbose {
-                    res.log.push(format!("{op} => CRASH {how} {}", lib_panic.clone().unwrap_or_default()));
+                    res.log.push(format!("{op} => CRASH {how}{panic_txt}"));
                 }
+                if unit.only.is_some() {
+                    break;
+                }
+                start = i + 1;
             }
-            "D" => done = true,
-            _ => {}
-        }
-    }
-    let mut status = 0i32;
-    libc::waitpid(pid, &mut status, 0);
-    if !done {
-        if libc::WIFEXITED(status) && libc::WEXITSTATUS(status) == 101 {
-            kit::ev::machinery("C31: harness panic in child (exit 101)");
-        }
-        let how = sig_name(status);
-        if replaying || res.n_ops == 0 {
-            // the prefix was executed without a crash one level up; dying while replaying it is a violation of its own
-            let last = unit.prefix.last().map(|o| o.to_json()).unwrap_or(Value::Null);
-            res.executed += 1;
-            res.violations.push((
-                format!("crash phase=prefix-replay how={how} last={}", unit.prefix.last().map(|o| o.f.name()).unwrap_or("-")),
-                format!("the process died with {how} while replaying a prefix that had run before: {}{}", unit.prefix.iter().map(|o| o.text()).collect::<Vec<_>>().join(" ; "), lib_panic.as_ref().map(|p| format!(" — {p}")).unwrap_or_default()),
-                last,
-            ));
-        } else {
-            kit::ev::machinery(format!("C31: the child holding the prefix state died ({how}) outside any call, unit {}", unit.to_json()));
+            _ => {
+                // died while rebuilding a prefix that ran without a crash one level up: a violation of its own; give up on the unit
+                res.executed += 1;
+                res.violations.push((
+                    format!("crash phase=prefix-replay how={how} last={}", unit.prefix.last().map(|o| o.f.name()).unwrap_or("-")),
+                    format!("the process died with {how} while replaying a prefix that had run before: {}{panic_txt}", unit.prefix.iter().map(|o| o.text()).collect::<Vec<_>>().join(" ; ")),
+                    unit.prefix.last().map(|o| o.to_json()).unwrap_or(Value::Null),
+                ));
+                break;
+            }
         }
     }
     res
@@ -1186,12 +1272,40 @@ fn worker_main(spec_path: &str) -> ! {
         }
         let v: Value = serde_json::from_str(line).unwrap_or_else(|e| kit::ev::machinery(format!("C31 worker: bad unit: {e}")));
         let unit = Unit::from_json(&v["unit"]);
-        let r = unsafe { run_unit(&env, &unit) };
+        let mut r = unsafe { run_unit(&env, &unit) };
+        if !r.memcheck.is_empty() && unit.only.is_none() {
+            // find the exact call(s): run every call of the unit alone
+            let ops = std::mem::take(&mut r.all_ops);
+            let mut found = false;
+            for op in ops {
+                let Some(o) = Op::from_json(&op) else { continue };
+                let single = Unit { only: Some(o.clone()), want_succ: false, verbose: false, ..unit.clone() };
+                let rs = unsafe { run_unit(&env, &single) };
+                for txt in rs.memcheck {
+                    found = true;
+                    let top = txt.split(" | ").next().unwrap_or("").split("== ").last().unwrap_or("").to_string();
+                    r.violations.push((
+                        format!("memcheck fn={} args=[{}] error={}", o.f.name(), o.args.iter().map(|a| a.name().trim_end_matches(char::is_numeric).to_string()).collect::<Vec<_>>().join(","), top),
+                        format!("valgrind memcheck reports an error while executing {}: {}", o.text(), txt.chars().take(700).collect::<String>()),
+                        op.clone(),
+                    ));
+                }
+            }
+            if !found {
+                let txt = r.memcheck.join(" || ");
+                r.violations.push((
+                    format!("memcheck unattributed after={}", unit.prefix.last().map(|o| o.f.name()).unwrap_or("-")),
+                    format!("valgrind memcheck reports an error somewhere in the calls enabled after this history, not reproducible call by call: {}", txt.chars().take(700).collect::<String>()),
+                    Value::Null,
+                ));
+            }
+        }
         let j = json!({
             "id": v["id"],
             "n_ops": r.n_ops,
             "executed": r.executed,
             "nontrivial": r.nontrivial,
+            "examples": r.examples.iter().map(|(o, c)| json!([o, c])).collect::<Vec<_>>(),
             "times": r.times.iter().map(|(k, v)| (k.clone(), json!([v.0, v.1]))).collect::<serde_json::Map<String, Value>>(),
             "outcomes": r.outcomes,
             "violations": r.violations.iter().map(|(k, w, o)| json!([k, w, o])).collect::<Vec<_>>(),
@@ -1209,6 +1323,15 @@ fn worker_main(spec_path: &str) -> ! {
 // parent side
 // ------------------------------------------------------------------------------------------------
 
+/// One violation per key (first case found, smallest history first by construction) with the number of cases.
+static DEDUP: Mutex<BTreeMap<String, (String, Value, u64)>> = Mutex::new(BTreeMap::new());
+
+fn dedup_flush(run: &Run) {
+    for (k, (what, case, n)) in DEDUP.lock().unwrap().iter() {
+        run.violation(k.clone(), format!("{what} [{n} sequence(s) with this key in this run]"), case.clone());
+    }
+}
+
 struct LevelResult {
     times: BTreeMap<String, (u64, u64)>,
     executed: u64,
@@ -1219,8 +1342,12 @@ struct LevelResult {
 
 /// Distribute units over worker subprocesses and collect the results.
 fn run_units(run: &Run, units: &[Unit], judge_into_run: bool) -> LevelResult {
-    // every sequence costs two process wake-ups and almost no CPU, so the work is latency-bound: oversubscribe the cores
-    let nworkers = (par::workers() * 4).min(units.len().max(1));
+    run_units_opt(run, units, judge_into_run, false)
+}
+
+/// `memcheck`: run the workers (and therefore every child they fork) under valgrind memcheck.
+fn run_units_opt(run: &Run, units: &[Unit], judge_into_run: bool, memcheck: bool) -> LevelResult {
+    let nworkers = par::workers().min(units.len().max(1));
     let dir = tempfile::Builder::new().prefix("verif-c31-").tempdir_in("/tmp").unwrap_or_else(|e| kit::ev::machinery(format!("tempdir: {e}")));
     let exe = std::env::current_exe().unwrap_or_else(|e| kit::ev::machinery(format!("current_exe: {e}")));
     let result = Mutex::new(LevelResult { times: BTreeMap::new(), executed: 0, nontrivial: 0, succ: BTreeMap::new() });
@@ -1240,9 +1367,19 @@ fn run_units(run: &Run, units: &[Unit], judge_into_run: bool) -> LevelResult {
     }
     std::thread::scope(|sc| {
         for (w, p) in files.iter().enumerate() {
-            let (exe, result) = (&exe, &result);
+            let (exe, result, dir) = (&exe, &result, &dir);
             sc.spawn(move || {
-                let mut child = Command::new(exe)
+                let mut cmd = if memcheck {
+                    let mut c = Command::new("valgrind");
+                    c.args(["-q", "--error-exitcode=97", "--leak-check=no", "--trace-children=no"])
+                        .arg(format!("--log-file={}/vg-%p.log", dir.path().display()))
+                        .arg(exe)
+                        .env("VERIF_C31_VGLOG", dir.path());
+                    c
+                } else {
+                    Command::new(exe)
+                };
+                let mut child = cmd
                     .arg("C31")
                     .env("VERIF_C31_WORKER", p)
                     .env("MALLOC_PERTURB_", "165")
@@ -1278,7 +1415,23 @@ fn run_units(run: &Run, units: &[Unit], judge_into_run: bool) -> LevelResult {
                                     h.push(o);
                                 }
                             }
-                            run.violation(x[0].as_str().unwrap_or(""), x[1].as_str().unwrap_or(""), json!({"history": hist_json(&h)}));
+                            let mut d = DEDUP.lock().unwrap();
+                            let e = d.entry(x[0].as_str().unwrap_or("").to_string()).or_insert_with(|| (x[1].as_str().unwrap_or("").to_string(), json!({"history": hist_json(&h)}), 0));
+                            e.2 += 1;
+                            // keep the shortest witness
+                            if h.len() < e.1["history"].as_array().map(|a| a.len()).unwrap_or(usize::MAX) {
+                                e.0 = x[1].as_str().unwrap_or("").to_string();
+                                e.1 = json!({"history": hist_json(&h)});
+                            }
+                        }
+                    }
+                    if judge_into_run && unit.prefix.len() >= 2 && id % 17 == 0 {
+                        for x in v["examples"].as_array().cloned().unwrap_or_default() {
+                            let mut h: Vec<String> = unit.prefix.iter().map(|o| o.text()).collect();
+                            if let Some(o) = Op::from_json(&x[0]) {
+                                h.push(o.text());
+                            }
+                            run.sample(json!({"history": h, "observed_last_call": x[1]}));
                         }
                     }
                     for l in v["log"].as_array().cloned().unwrap_or_default() {
@@ -1303,7 +1456,7 @@ pub fn run(run: &Run, replay: Option<&Value>) {
         worker_main(&spec);
     }
     run.rule("call histories over 65 exported C functions; every pointer argument from {each live handle (right/wrong type), last freed address, NULL, foreign heap block}, stream arguments from {fresh stream, live non-stream handle, released stream, NULL, foreign}, one deviating argument per call, pool <= 3. \
-              (1) all sequences to depth D1 unreduced; (2) BFS to depth D2 with one representative history per abstract model state; every sequence closed by an epilogue freeing all model-live handles twice. \
+              (1) all sequences over a 22-function core alphabet to depth 2 (quick) / 3 (thorough) unreduced, thorough also all sequences over the full alphabet to depth 2; (2) BFS to depth 3 (quick) / 5 (thorough) with one representative history per abstract model state; every sequence closed by an epilogue freeing all model-live handles twice; thorough re-executes the BFS sequences of length <= 3 under valgrind memcheck. \
               non-trivial = executed sequences whose last call has at least one handle argument (valid or not) taken from a non-empty pool or the freed address, i.e. whose verdict depends on the history");
     run.assume("c2pa_free(NULL) and the typed free functions with NULL are documented no-ops (return 0, no error); they are not counted as 'invalid argument'");
     run.assume("typed free functions (c2pa_reader_free, ...) return void and are documented as equivalent to c2pa_free: given a live handle of another type they release it; for void functions the error indicator is the presence of a fresh c2pa_error()");
@@ -1313,13 +1466,25 @@ pub fn run(run: &Run, replay: Option<&Value>) {
 
     if let Some(c) = replay {
         let h = hist_from_json(&c["history"]);
+        if c["expand"].as_bool() == Some(true) {
+            // cost probe: every call enabled after the given history, as one unit (not a verdict)
+            let t0 = std::time::Instant::now();
+            let r = run_units(run, &[Unit { prefix: h, only: None, want_succ: false, dedup: false, verbose: c["verbose"].as_bool() == Some(true), core: false }], true);
+            println!("expanded {} calls in {:.2}s", r.executed, t0.elapsed().as_secs_f64());
+            dedup_flush(run);
+            run.evals(r.executed);
+            run.states(1);
+            run.transitions(r.executed);
+            return;
+        }
         if h.is_empty() {
             kit::ev::machinery("C31 replay: empty history");
         }
         run.eval();
-        let unit = Unit { prefix: h[..h.len() - 1].to_vec(), only: Some(h[h.len() - 1].clone()), want_succ: false, dedup: false, verbose: true };
+        let unit = Unit { prefix: h[..h.len() - 1].to_vec(), only: Some(h[h.len() - 1].clone()), want_succ: false, dedup: false, verbose: true, core: false };
         println!("history: {}", h.iter().map(|o| o.text()).collect::<Vec<_>>().join(" ; "));
         run_units(run, &[unit], true);
+        dedup_flush(run);
         run.states(1);
         run.transitions(1);
         return;
@@ -1330,7 +1495,7 @@ pub fn run(run: &Run, replay: Option<&Value>) {
         let s = |f: F, a: Vec<A>| Op { f, args: a };
         let base = vec![s(F::BuilderFromJson, vec![]), s(F::SignerFromInfo, vec![])];
         let probe = s(F::BuilderSign, vec![A::Slot(0), A::Amb, A::Amb, A::Slot(1)]);
-        let u = Unit { prefix: base, only: Some(probe), want_succ: true, dedup: false, verbose: false };
+        let u = Unit { prefix: base, only: Some(probe), want_succ: true, dedup: false, verbose: false, core: false };
         let collect = |u: &Unit| {
             let r = run_units(run, &[u.clone()], false);
             r.succ.get(&0).cloned().unwrap_or_default()
@@ -1345,22 +1510,40 @@ pub fn run(run: &Run, replay: Option<&Value>) {
         }
     }
 
-    let d_full: usize = run.tier.pick(2, 3);
-    let d_bfs: usize = run.tier.pick(3, 6);
+    if std::env::var("VERIF_C31_MEMCHECK_TEST").is_ok() {
+        // development aid: only the memcheck machinery, on two small units
+        let s = |f: F, a: Vec<A>| Op { f, args: a };
+        let units = vec![
+            Unit { prefix: vec![], only: None, want_succ: false, dedup: false, verbose: false, core: true },
+            Unit { prefix: vec![s(F::ReaderFromStream, vec![A::Amb])], only: None, want_succ: false, dedup: false, verbose: false, core: true },
+        ];
+        let r = run_units_opt(run, &units, true, true);
+        println!("memcheck test: {} sequences", r.executed);
+        run.evals(r.executed);
+        run.states(1);
+        run.transitions(r.executed);
+        dedup_flush(run);
+        return;
+    }
+    let d_full: usize = run.tier.pick(0, 2);
+    let d_core: usize = run.tier.pick(2, 3);
+    let d_bfs: usize = run.tier.pick(3, 5);
     let mut total_states: BTreeSet<String> = BTreeSet::new();
     total_states.insert(Model::default().key());
-    // distinct sequences: all of phase (1), and those of phase (2) that are longer than d_full (shorter ones repeat phase (1))
+    // distinct sequences (a lower bound): all of phase (1); of phase (1b) those longer than d_full; of phase (2) those longer than
+    // both unreduced depths (shorter ones may repeat sequences of the unreduced phases)
     let mut distinct_sequences = 0u64;
     let mut distinct_nontrivial = 0u64;
     let mut times: BTreeMap<String, (u64, u64)> = BTreeMap::new();
+    let mut memcheck_prefixes: Vec<Vec<Op>> = vec![];
 
     // ---- (1) unreduced: every sequence to depth d_full ----
-    {
+    if d_full > 0 {
         let mut frontier: Vec<Vec<Op>> = vec![vec![]];
         let mut count = 0u64;
         for depth in 1..=d_full {
             let last = depth == d_full;
-            let units: Vec<Unit> = frontier.iter().map(|h| Unit { prefix: h.clone(), only: None, want_succ: !last, dedup: false, verbose: false }).collect();
+            let units: Vec<Unit> = frontier.iter().map(|h| Unit { prefix: h.clone(), only: None, want_succ: !last, dedup: false, verbose: false, core: false }).collect();
             let r = run_units(run, &units, true);
             for (k, v) in &r.times {
                 let e = times.entry(k.clone()).or_insert((0, 0));
@@ -1386,6 +1569,40 @@ pub fn run(run: &Run, replay: Option<&Value>) {
         run.space(&format!("every call sequence up to depth {d_full} (no reduction)"), count, true);
     }
 
+    // ---- (1b) unreduced over the core alphabet (22 functions) to depth d_core; only the sequences of length d_core are new ----
+    if d_core > d_full {
+        let mut frontier: Vec<Vec<Op>> = vec![vec![]];
+        let mut count = 0u64;
+        for depth in 1..=d_core {
+            let last = depth == d_core;
+            let units: Vec<Unit> = frontier.iter().map(|h| Unit { prefix: h.clone(), only: None, want_succ: !last, dedup: false, verbose: false, core: true }).collect();
+            let r = run_units(run, &units, depth > d_full);
+            for (k, v) in &r.times {
+                let e = times.entry(k.clone()).or_insert((0, 0));
+                e.0 += v.0;
+                e.1 += v.1;
+            }
+            count += r.executed;
+            run.evals(r.executed);
+            if depth > d_full {
+                distinct_sequences += r.executed;
+                distinct_nontrivial += r.nontrivial;
+            }
+            let mut next = vec![];
+            for (id, succ) in &r.succ {
+                for (op, key) in succ {
+                    total_states.insert(key.clone());
+                    let mut h = units[*id].prefix.clone();
+                    h.push(op.clone());
+                    next.push(h);
+                }
+            }
+            println!("C31 core-alphabet depth {depth}: {} prefixes expanded, {} sequences executed", units.len(), r.executed);
+            frontier = next;
+        }
+        run.space(&format!("every call sequence over the 22-function core alphabet up to depth {d_core} (no reduction)"), count, true);
+    }
+
     // ---- (2) BFS over abstract states to depth d_bfs ----
     {
         let mut seen: BTreeMap<String, Vec<Op>> = BTreeMap::new();
@@ -1397,7 +1614,7 @@ pub fn run(run: &Run, replay: Option<&Value>) {
                 break;
             }
             let last = depth == d_bfs;
-            let units: Vec<Unit> = frontier.iter().map(|h| Unit { prefix: h.clone(), only: None, want_succ: !last, dedup: true, verbose: false }).collect();
+            let units: Vec<Unit> = frontier.iter().map(|h| Unit { prefix: h.clone(), only: None, want_succ: !last, dedup: true, verbose: false, core: false }).collect();
             // sequences of length <= d_full were already judged (and their outcomes counted) in phase (1)
             let r = run_units(run, &units, depth > d_full);
             for (k, v) in &r.times {
@@ -1407,7 +1624,7 @@ pub fn run(run: &Run, replay: Option<&Value>) {
             }
             count += r.executed;
             run.evals(r.executed);
-            if depth > d_full {
+            if depth > d_full.max(d_core) {
                 distinct_sequences += r.executed;
                 distinct_nontrivial += r.nontrivial;
             }
@@ -1433,6 +1650,7 @@ pub fn run(run: &Run, replay: Option<&Value>) {
         }
         run.space(&format!("BFS to depth {d_bfs}: every enabled call in every abstract model state reached (one representative history per state)"), count, true);
         run.extra("abstract_states_bfs", json!(seen.len()));
+        memcheck_prefixes = seen.values().filter(|h| h.len() <= 2).cloned().collect();
         run.extra(
             "deepest_representatives",
             json!(seen.values().filter(|h| h.len() + 1 >= d_bfs).take(5).map(|h| h.iter().map(|o| o.text()).collect::<Vec<_>>()).collect::<Vec<_>>()),
@@ -1446,6 +1664,29 @@ pub fn run(run: &Run, replay: Option<&Value>) {
             json!(t.iter().take(12).map(|(k, v)| json!({"fn": k, "calls": v.0, "total_ms": v.1 / 1_000_000, "mean_us": v.1 / 1000 / v.0.max(1)})).collect::<Vec<_>>()),
         );
     }
+    // ---- (3) thorough: the BFS sequences of length <= 3 again under valgrind memcheck (silent use-after-free / double free) ----
+    if run.tier.is_thorough() {
+        let have = Command::new("valgrind").arg("--version").stdout(Stdio::null()).stderr(Stdio::null()).status().map(|s| s.success()).unwrap_or(false);
+        if have {
+            // baseline: a unit of valid calls must be clean, otherwise memcheck noise would be blamed on the library
+            let s = |f: F, a: Vec<A>| Op { f, args: a };
+            let base = Unit { prefix: vec![s(F::BuilderFromJson, vec![]), s(F::SignerFromInfo, vec![])], only: Some(s(F::BuilderSign, vec![A::Slot(0), A::Amb, A::Amb, A::Slot(1)])), want_succ: false, dedup: false, verbose: false, core: false };
+            let before = DEDUP.lock().unwrap().keys().filter(|k| k.starts_with("memcheck")).count();
+            run_units_opt(run, &[base], true, true);
+            let after = DEDUP.lock().unwrap().keys().filter(|k| k.starts_with("memcheck")).count();
+            if after != before {
+                kit::ev::machinery("C31: valgrind reports errors on a fully valid sign sequence; memcheck pass cannot be trusted");
+            }
+            let units: Vec<Unit> = memcheck_prefixes.iter().map(|h| Unit { prefix: h.clone(), only: None, want_succ: false, dedup: false, verbose: false, core: false }).collect();
+            let r = run_units_opt(run, &units, true, true);
+            run.evals(r.executed);
+            run.space("memcheck: every enabled call after every BFS representative history of length <= 2, re-executed under valgrind", r.executed, true);
+            println!("C31 memcheck: {} units, {} sequences re-executed under valgrind", units.len(), r.executed);
+        } else {
+            run.assume("valgrind is not installed: the memcheck re-execution of the thorough tier was skipped");
+        }
+    }
+    dedup_flush(run);
     run.states(total_states.len() as u64);
     run.transitions(distinct_sequences);
     run.traces(distinct_sequences);
